@@ -6,6 +6,21 @@ From Synnax Require Import Common.Base Cesium.Store Cesium.IndexSearch Cesium.Di
 Import ListNotations.
 Local Open Scope Z_scope.
 
+(* one outcome of a worker of the concurrent phase: an iterator of its own on a channel of the
+   same database, opened and driven while other workers do the same (and a writer commits
+   beyond every worker's bounds) *)
+Record conc_t := Conc {
+  q_key : Z;
+  q_bounds : tr;
+  q_chunk : Z;
+  q_cmds : list cmd;
+  q_obs : list obs;
+  q_late : list (list series);
+  q_cmp : bool    (* false: a writer was committing later domains meanwhile; what lies after the
+                     bounds (visible to automatic steps at the end of the data) is then not
+                     fixed, and only the monitor applies, not the comparison with the model *)
+}.
+
 Record case_t := Case {
   k_cap : Z;
   k_chans : list (Z * Z * Z);        (* key, index key (0 = index channel), data type kind *)
@@ -16,9 +31,16 @@ Record case_t := Case {
   k_chunk : Z;
   k_cmds : list cmd;
   k_obs : list obs;                  (* implementation: observation after every command *)
-  k_late : list (list series)        (* implementation: the frame of every command, held by the
+  k_late : list (list series);       (* implementation: the frame of every command, held by the
                                         caller and looked at again after the last command *)
+  k_conc : list conc_t               (* implementation: the distinct outcomes of the concurrent
+                                        phase that follows (stored content unchanged) *)
 }.
+
+(* a worker's outcome is judged as a sequential case of its own on the same history *)
+Definition sub_case (c : case_t) (q : conc_t) : case_t :=
+  Case (k_cap c) (k_chans c) (k_script c) (k_sres c) (q_key q) (q_bounds q) (q_chunk q)
+       (q_cmds q) (q_obs q) (q_late q) [].
 
 (* error class of a scripted one-shot read fault (harness: cesh.EInjected): the step after which
    it is reported may fail; until the next seek the model is not compared with the
@@ -61,10 +83,13 @@ Fixpoint obs_match (desync : bool) (cs : list cmd) (ms os : list obs) : bool :=
 Definition late_same (c : case_t) : bool :=
   list_eqb (list_eqb series_eqb) (map o_frame (k_obs c)) (k_late c).
 
-Definition mismatch (c : case_t) : bool :=
+Definition mismatch1 (c : case_t) : bool :=
   negb (list_eqb zz_eqb (snd (model_state c)) (k_sres c)) ||
   negb (obs_match false (k_cmds c) (model_obs c) (k_obs c)) ||
   negb (late_same c).
+(* concurrency changes nothing: every worker's outcome is the sequential model's *)
+Definition mismatch (c : case_t) : bool :=
+  mismatch1 c || existsb (fun q => q_cmp q && mismatch1 (sub_case c q)) (k_conc c).
 
 (* ---- the property on observations ---- *)
 Definition truth (c : case_t) : assoc :=
@@ -182,10 +207,13 @@ Definition with_frame (o : obs) (f : list series) : obs := Obs (o_ok o) (o_valid
 Definition late_ok (tru : assoc) (os : list obs) (late : list (list series)) : bool :=
   forallb (fun ol => exact_ok tru (with_frame (fst ol) (snd ol))) (combine os late).
 
-Definition violates (c : case_t) : bool :=
+Definition violates1 (c : case_t) : bool :=
   script_clean c &&
   (negb (ok_C10 (truth c) (k_bounds c) (k_cmds c) (k_obs c)) ||
    negb (late_ok (truth c) (k_obs c) (k_late c))).
+(* the property holds for every iterator, also while other iterators and a writer are at work *)
+Definition violates (c : case_t) : bool :=
+  violates1 c || existsb (fun q => violates1 (sub_case c q)) (k_conc c).
 
 Definition mismatches (cs : list case_t) : list nat := find_idx mismatch cs.
 Definition violations (cs : list case_t) : list nat := find_idx violates cs.
@@ -229,9 +257,17 @@ Fixpoint diag_late (tru : assoc) (l : list (obs * list series)) (n : Z) : list (
   | [] => []
   | (o, f) :: r => (if exact_ok tru (with_frame o f) then [] else [(n, [8])]) ++ diag_late tru r (n + 1)
   end.
-Definition diagnose (c : case_t) : list (Z * list Z) :=
+Definition diagnose1 (c : case_t) : list (Z * list Z) :=
   diag_trace (truth c) (k_bounds c) None (combine (k_cmds c) (k_obs c)) 0 ++
   diag_late (truth c) (combine (k_obs c) (k_late c)) 0.
+(* commands of the concurrent phase are numbered from 1000 * (1 + index of the outcome) *)
+Fixpoint diag_conc (c : case_t) (qs : list conc_t) (n : Z) : list (Z * list Z) :=
+  match qs with
+  | [] => []
+  | q :: r => map (fun e => (1000 * n + fst e, snd e)) (diagnose1 (sub_case c q)) ++ diag_conc c r (n + 1)
+  end.
+Definition diagnose (c : case_t) : list (Z * list Z) :=
+  diagnose1 c ++ diag_conc c (k_conc c) 1.
 
 (* does the layout the model computes for the case satisfy the decidable hypothesis of the
    exactness theorems (C10_step_exact_partial)? — reported as coverage of the guard *)
